@@ -178,8 +178,45 @@ pub fn run(_m: &mut Machine, op: &str, args: &[Val]) -> R<Out> {
                 }
             }
             let pairs: Vec<(&G1Prepared, &G2Prepared)> = ps.into_iter().zip(qs.into_iter()).collect();
-            ok1(Val::Fq12(Bls12::miller_loop(pairs.iter())))
+            // optional second argument: the kind of iterator handed to the generic entry point
+            let mode = if args.len() > 1 { n(1)? } else { 0 };
+            let half = pairs.len() / 2;
+            ok1(Val::Fq12(match mode {
+                0 => Bls12::miller_loop(pairs.iter()),
+                1 => Bls12::miller_loop(&pairs),
+                2 => Bls12::miller_loop(pairs.iter().filter(|_| true)),
+                3 => Bls12::miller_loop(LooseIter { inner: pairs.iter(), upper: None }),
+                4 => Bls12::miller_loop(LooseIter { inner: pairs.iter(), upper: Some(pairs.len() + 7) }),
+                5 => Bls12::miller_loop(pairs[..half].iter().chain(pairs[half..].iter())),
+                6 => {
+                    let dq: std::collections::VecDeque<&(&G1Prepared, &G2Prepared)> = pairs.iter().collect();
+                    Bls12::miller_loop(dq.into_iter())
+                }
+                7 => {
+                    let mut it = pairs.iter();
+                    Bls12::miller_loop(std::iter::from_fn(move || it.next()))
+                }
+                8 => Bls12::miller_loop(pairs.iter().skip_while(|_| false).take(pairs.len() + 3)),
+                _ => return Err("miller: iterator mode 0..8".into()),
+            }))
         }
+        // a prepared slot overwritten in place (Clone::clone_from) with another prepared element
+        "prepare2_into" => match (arg(args, 0)?, arg(args, 1)?) {
+            (Val::Prep2(slot), Val::Prep2(src)) => {
+                let mut d: G2Prepared = (**slot).clone();
+                d.clone_from(&**src);
+                ok1(Val::Prep2(Arc::new(d)))
+            }
+            _ => Err("prepare2_into needs (Prep2, Prep2)".into()),
+        },
+        "prepare1_into" => match (arg(args, 0)?, arg(args, 1)?) {
+            (Val::Prep1(slot), Val::Prep1(src)) => {
+                let mut d: G1Prepared = (**slot).clone();
+                d.clone_from(&**src);
+                ok1(Val::Prep1(Arc::new(d)))
+            }
+            _ => Err("prepare1_into needs (Prep1, Prep1)".into()),
+        },
         "final_exp" => Ok(match Bls12::final_exponentiation(&get_fq12(arg(args, 0)?)?) {
             Some(v) => Out::Ok(vec![Val::Fq12(v)]),
             None => Out::None,
@@ -284,5 +321,22 @@ pub fn run(_m: &mut Machine, op: &str, args: &[Val]) -> R<Out> {
         }
         "nop" => Ok(Out::Ok(vec![])),
         _ => Err(format!("unknown op {}", op)),
+    }
+}
+
+
+/// An iterator whose size_hint is legal but uninformative (lower bound 0).
+struct LooseIter<I> {
+    inner: I,
+    upper: Option<usize>,
+}
+
+impl<I: Iterator> Iterator for LooseIter<I> {
+    type Item = I::Item;
+    fn next(&mut self) -> Option<I::Item> {
+        self.inner.next()
+    }
+    fn size_hint(&self) -> (usize, Option<usize>) {
+        (0, self.upper)
     }
 }
